@@ -36,6 +36,10 @@ type State struct {
 	spare map[int][][]byte
 	in    map[int][]byte
 	orig  map[int][]byte
+	// kept: slices the library returned earlier in this case (Marshal outputs, DestinationSSRC lists)
+	// with a copy taken at the time, to notice a later call changing an earlier result
+	keptB [][2][]byte
+	keptU [][2][]uint32
 	W     io.Writer
 	N     int // events written
 	Quiet bool
@@ -99,7 +103,40 @@ func (s *State) memSame(h int) bool {
 	return true
 }
 
+// earlierSame reports whether every result returned earlier in this case still has its value.
+func (s *State) earlierSame() bool {
+	for _, k := range s.keptB {
+		if !bytes.Equal(k[0], k[1]) {
+			return false
+		}
+	}
+	for _, k := range s.keptU {
+		if len(k[0]) != len(k[1]) {
+			return false
+		}
+		for i := range k[0] {
+			if k[0][i] != k[1][i] {
+				return false
+			}
+		}
+	}
+	return true
+}
+
+func (s *State) keepB(b []byte) {
+	if len(b) > 0 && len(b) <= 4096 && len(s.keptB) < 16 {
+		s.keptB = append(s.keptB, [2][]byte{b, append([]byte(nil), b...)})
+	}
+}
+
+func (s *State) keepU(u []uint32) {
+	if len(u) > 0 && len(s.keptU) < 16 {
+		s.keptU = append(s.keptU, [2][]uint32{u, append([]uint32(nil), u...)})
+	}
+}
+
 func (s *State) Reset() V {
+	s.keptB, s.keptU = nil, nil
 	s.Pk = map[int]any{}
 	s.Buf = map[int][]byte{}
 	s.spare = map[int][][]byte{}
@@ -217,8 +254,11 @@ func (s *State) Marshal(h int) V {
 		}
 	})
 	ok := !pan && err == nil
-	ev := V{"op": "marshal", "h": h, "ok": ok, "out": L{}, "panic": pan, "post": post(before, x), "memsame": s.memSame(h)}
+	ev := V{"op": "marshal", "h": h, "ok": ok, "out": L{}, "panic": pan, "post": post(before, x), "memsame": s.memSame(h) && s.earlierSame()}
 	if ok {
+		if _, raw := x.(*rtcp.RawPacket); !raw { // RawPacket.Marshal returns the packet itself (documented)
+			s.keepB(out)
+		}
 		s.Buf[h] = append([]byte(nil), out...)
 		ev["out"] = abs.Bytes(out)
 	} else {
@@ -247,7 +287,7 @@ func (s *State) Size(h int) V {
 	if pan {
 		n = -2
 	}
-	return s.emit(V{"op": "size", "h": h, "out": n, "post": post(before, x), "memsame": s.memSame(h)})
+	return s.emit(V{"op": "size", "h": h, "out": n, "post": post(before, x), "memsame": s.memSame(h) && s.earlierSame()})
 }
 
 func (s *State) Dest(h int) V {
@@ -266,7 +306,11 @@ func (s *State) Dest(h int) V {
 	if pan {
 		out = L{L{-2}}
 	}
-	return s.emit(V{"op": "dest", "h": h, "out": out, "post": post(before, x), "memsame": s.memSame(h)})
+	ev := V{"op": "dest", "h": h, "out": out, "post": post(before, x), "memsame": s.memSame(h) && s.earlierSame()}
+	if _, remb := x.(*rtcp.ReceiverEstimatedMaximumBitrate); !remb { // REMB returns its own SSRCs slice (documented field)
+		s.keepU(d)
+	}
+	return s.emit(ev)
 }
 
 type headerer interface{ Header() rtcp.Header }
@@ -310,7 +354,7 @@ func (s *State) String(h int) V {
 		}
 	})
 	sum := sha256.Sum256([]byte(txt))
-	ev := V{"op": "string", "h": h, "panic": pan, "out": abs.Bytes(sum[:6]), "post": post(before, x), "n": len(txt), "memsame": s.memSame(h)}
+	ev := V{"op": "string", "h": h, "panic": pan, "out": abs.Bytes(sum[:6]), "post": post(before, x), "n": len(txt), "memsame": s.memSame(h) && s.earlierSame()}
 	if pan {
 		ev["msg"] = msg
 	}
